@@ -17,6 +17,8 @@
 (*            "lazy"   call site that pulls an operand which itself needs  *)
 (*                     a collation (deep-equal(E,..), index-of(E,..),      *)
 (*                     contains-token(E,..) evaluate E lazily)             *)
+(*            "rec"    re-entrant call site: compares the MEMBERS of maps  *)
+(*                     and arrays by calling itself (deep_equal)           *)
 (*   frame.pc start -> acq -> read -> in          (SetLocale ok)           *)
 (*                            read -> fb -> in    (fallback en_US.UTF-8)   *)
 (*                            read -> fail        (no fallback: FOCH0002)  *)
@@ -32,7 +34,10 @@
 (* Variant = "pinned": the code as it is.  The deviations are the named    *)
 (*   actions LeakRaise (fallback setlocale fails -> bare locale.Error, the *)
 (*   lock stays held), YieldHolding (generator yields inside the `with`)   *)
-(*   and LeaveHolding (operand pulled lazily inside the `with`).           *)
+(*   LeaveHolding (operand pulled lazily inside the `with`) and            *)
+(*   ReenterHolding (the site calls itself for the members of a map or an  *)
+(*   array inside the `with`: the nested call asks for the lock again;     *)
+(*   property: the nested comparison reuses the active context, Recurse).  *)
 (* Variant = "union": both (used by TraceCollation to recognise real       *)
 (*   traces of either design and to name the deviation they contain).      *)
 (*                                                                         *)
@@ -46,7 +51,7 @@ CONSTANTS
   Configs,    \* set of installed-locale configurations; {} = nothing beyond C/POSIX
   InitLocales,\* LC_COLLATE values the process may start with ("C", or an installed locale)
   Colls,      \* collation classes offered to Call (keys of CollTable)
-  Kinds,      \* frame kinds offered to Call: subset of {"plain","gen","lazy"}
+  Kinds,      \* frame kinds offered to Call: subset of {"plain","gen","lazy","rec"}
   MaxCalls,   \* top-level calls per thread (0 = unbounded, trace validation only)
   MaxDepth,   \* live frames per thread
   MaxItems,   \* items yielded per generator (0 = unbounded, trace validation only)
@@ -77,8 +82,8 @@ HasFb(c) == CollTable[c].fb
 
 PCs == {"start", "acq", "read", "fb", "fail", "fail2", "in", "out", "susp"}
 Frame(c, k) == [c |-> c, k |-> k, pc |-> "start", saved |-> "none", hold |-> FALSE,
-                n |-> 0, kid |-> IF k = "lazy" THEN "todo" ELSE "na"]
-FrameSet == [c : DOMAIN CollTable, k : {"plain", "gen", "lazy"}, pc : PCs,
+                n |-> 0, kid |-> IF k \in {"lazy", "rec"} THEN "todo" ELSE "na"]
+FrameSet == [c : DOMAIN CollTable, k : {"plain", "gen", "lazy", "rec"}, pc : PCs,
              saved : {"none", "C"} \cup AllLocales, hold : BOOLEAN,
              n : 0..MaxItems, kid : {"na", "todo", "run", "done", "raised"}]
 
@@ -98,7 +103,7 @@ NoLazy(t) == \A i \in 1..Len(frames[t]) : frames[t][i].k # "lazy"
 (* may the frame go for the lock: operands first (property), lock first (pinned) *)
 ArgsReady(f) == f.k = "lazy" => \/ f.kid = "done"
                                 \/ Pinned /\ f.kid = "todo" /\ Loc(f.c) # "none"
-BodyReady(f) == f.k = "lazy" => f.kid = "done"
+BodyReady(f) == f.k \in {"lazy", "rec"} => f.kid = "done"
 
 SetF(t, i, f) == frames' = [frames EXCEPT ![t] = [@ EXCEPT ![i] = f]]
 
@@ -113,7 +118,7 @@ Init == /\ inst \in Configs
 Call(t, c, k) ==
   /\ Run(t) = 0 /\ NoLazy(t)
   /\ MaxCalls > 0 => calls[t] < MaxCalls
-  /\ Len(frames[t]) + (IF k = "lazy" THEN 2 ELSE 1) <= MaxDepth   \* a lazy frame brings its operand
+  /\ Len(frames[t]) + (IF k \in {"lazy", "rec"} THEN 2 ELSE 1) <= MaxDepth   \* room for the operand / nested call
   /\ frames' = [frames EXCEPT ![t] = Append(@, Frame(c, k))]
   /\ calls' = IF MaxCalls > 0 THEN [calls EXCEPT ![t] = @ + 1] ELSE calls
   /\ UNCHANGED <<inst, lc0, lc, owner>>
@@ -146,6 +151,28 @@ LeaveHolding(t) ==
        /\ SetF(t, r, [f EXCEPT !.pc = "susp"])
   /\ UNCHANGED <<inst, lc0, lc, owner, calls>>
 
+(* property: the members of maps and arrays are compared in the ACTIVE collation context *)
+Recurse(t) ==
+  LET r == Run(t) IN
+  /\ r # 0
+  /\ LET f == frames[t][r] IN
+       /\ f.k = "rec" /\ f.pc = "in" /\ f.kid = "todo"
+       /\ Prop \/ ~f.hold
+       /\ SetF(t, r, [f EXCEPT !.kid = "done"])
+  /\ UNCHANGED <<inst, lc0, lc, owner, calls>>
+
+(* DEVIATION (as implemented before the repair): the site calls ITSELF for the members  *)
+(* inside the `with`; the nested call builds its own CollationManager for the same      *)
+(* collation and asks for the lock its caller holds                                     *)
+ReenterHolding(t) ==
+  LET r == Run(t) IN
+  /\ Pinned /\ r # 0 /\ r = Len(frames[t])
+  /\ LET f == frames[t][r] s == frames[t] IN
+       /\ f.k = "rec" /\ f.pc = "in" /\ f.hold /\ f.kid = "todo"
+       /\ frames' = [frames EXCEPT ![t] =
+                       Append([s EXCEPT ![r] = [f EXCEPT !.pc = "susp", !.kid = "run"]], Frame(f.c, "plain"))]
+  /\ UNCHANGED <<inst, lc0, lc, owner, calls>>
+
 ResumeLazy(t) ==
   /\ Run(t) = 0 /\ Len(frames[t]) > 0
   /\ LET p == Last(frames[t]) IN
@@ -168,7 +195,7 @@ Enter0(t) ==      \* lc_collate is None: no lock, no locale
   LET r == Run(t) IN
   /\ r # 0
   /\ LET f == frames[t][r] IN
-       /\ f.pc = "start" /\ Loc(f.c) = "none" /\ BodyReady(f)
+       /\ f.pc = "start" /\ Loc(f.c) = "none" /\ (f.k = "lazy" => f.kid = "done")
        /\ SetF(t, r, [f EXCEPT !.pc = "in"])
   /\ UNCHANGED <<inst, lc0, lc, owner, calls>>
 
@@ -316,7 +343,7 @@ Abandon(t, i) ==     \* the consumer drops the generator: GeneratorExit runs __e
 
 (* everything a thread does once it has been called (the obligations of fairness) *)
 ThreadStep(t) ==
-  \/ EvalArgs(t) \/ LeaveHolding(t) \/ ResumeLazy(t) \/ ArgError(t) \/ Enter0(t) \/ Acquire(t) \/ ReadCurrent(t)
+  \/ EvalArgs(t) \/ LeaveHolding(t) \/ Recurse(t) \/ ReenterHolding(t) \/ ResumeLazy(t) \/ ArgError(t) \/ Enter0(t) \/ Acquire(t) \/ ReadCurrent(t)
   \/ \E res \in {"ok", "fail"} : SetLocale(t, res)
   \/ \E res \in {"ok", "fail"} : Fallback(t, res)
   \/ RaiseFromEnter(t) \/ LeakRaise(t) \/ Exit(t) \/ ExitGen(t) \/ Unwind(t)
@@ -330,6 +357,8 @@ Next ==
   \/ \E t \in Threads, c \in Colls : CallArg(t, c)
   \/ \E t \in Threads : EvalArgs(t)
   \/ \E t \in Threads : LeaveHolding(t)
+  \/ \E t \in Threads : Recurse(t)
+  \/ \E t \in Threads : ReenterHolding(t)
   \/ \E t \in Threads : ResumeLazy(t)
   \/ \E t \in Threads : ArgError(t)
   \/ \E t \in Threads : Enter0(t)
